@@ -134,13 +134,18 @@ func ruleC07R2(c *Ctx) {
 			key := fmt.Sprintf("%s.%s returns globalised doc numbers", n.Obj().Name(), mname)
 			const fGlobal uint64 = 1
 			fromOffsets := func(v ssa.Value) bool {
-				return dependsOn(v, func(y ssa.Value) bool {
+				// not through calls: the target handed to a per-segment Advance is itself computed
+				// from the offsets, which says nothing about the number that comes back
+				return dependsOnStop(v, func(y ssa.Value) bool {
 					ia, ok := y.(*ssa.IndexAddr)
 					if !ok {
 						return false
 					}
 					f, _ := loadedField(ia.X)
 					return f == a.SnapOffsets
+				}, func(y ssa.Value) bool {
+					_, isCall := y.(*ssa.Call)
+					return isCall
 				})
 			}
 			var problems []string
